@@ -1,7 +1,9 @@
 """C29 -- callback closures stay distinct and bound to their own function.
 
 History + model: random create / drop / churn / failed-create / gc steps over
-ffi.callback() objects of a small signature set, in one ASan'd process per
+ffi.callback() objects of a small signature set (every entry point of
+ffi.callback(), several callable kinds, shared callables, own error= / onerror=,
+ffi.gc() keepers, finalizers that create callbacks), in one ASan'd process per
 shard so that the closure allocator's state (malloc_closure.h free list,
 mmapped blocks) is carried from history to history.  The model knows for every
 live callback its id, signature and address; monitors: addresses of live
@@ -17,25 +19,50 @@ from vlib import core, modbuild
 RULE = ("case = one step of a history (seed, peak, creation budget): grow burst (1..peak-live "
         "callbacks at once), drop burst (LIFO / FIFO / random order), churn (drop one, create "
         "one), failing creation (variadic / bitfield-struct type after the closure was "
-        "allocated, bad error= before), gc.collect(), sweep; signatures int(void), int(int), "
-        "long long(long long,int), double(double,double), void(int*,int), struct pt(short,"
-        "unsigned char); created through cffi.FFI() or the compiled module's ffi, 1/8 of them in "
-        "a cycle function.cb = callback; histories of one process sorted by (noisy) peak so the "
-        "allocator's high-water mark rises through the more_core boundaries up to 20000 alive; "
-        "after each step a sample of live callbacks (all new ones of small bursts) is called "
-        "through cdata / C caller / integer address; distinct = (seed, step); non-trivial = at "
-        "least one monitored call with >= 2 callbacks alive")
+        "allocated, also through the decorator form; bad error=, non-callable function or onerror "
+        "before), noise on a live callback (repr, ffi.release / with -> refused, weakref, bool, "
+        "hash, ==, typeof), gc.collect(), sweep; signatures int(void), int(int), long long(long "
+        "long,int), double(double,double), void(int*,int), struct pt(short,unsigned char), "
+        "short(short,signed char), int(9 x int), void*(void*,unsigned char); entry points: ctype "
+        "object, 'R(*)(A)' string, 'R(A)' string, decorator form (ctype / string), keyword "
+        "arguments, one decorator object per (ffi, signature) used again and again for the whole "
+        "process (with and without error=); through cffi.FFI() or the compiled module's ffi; "
+        "callable kinds function / bound method / callable instance / functools.partial / lambda / "
+        "the very callable object of another live callback; 35% with an error= value derived from "
+        "the callback's id, 16% with an onerror handler of their own (returning None or a value "
+        "derived from the id); 1/8 in a cycle function.cb = callback, 8% kept alive only by an "
+        "ffi.gc() copy whose destructor calls the callback, 8% with a weakref finalizer (on the "
+        "cdata / on the function) that creates a new callback in the middle of the deallocation; "
+        "histories of one process sorted by (noisy) peak so the allocator's high-water mark rises "
+        "through the more_core boundaries up to 20000 alive; after each step a sample of live "
+        "callbacks (all new ones of small bursts) is called through cdata / C caller / integer "
+        "address (rarely from a second Python thread): 90% plain calls, 6% calls whose function "
+        "raises or returns an unconvertible value (caller must see the callback's own error value "
+        "/ own onerror result, own onerror handler runs once), 4% chains of 2-4 nested calls "
+        "(callback function calls another live callback or itself, each level succeeding or "
+        "failing on its own, optionally dropping and creating other callbacks in the middle); "
+        "distinct = (seed, step); non-trivial = at least one monitored call with >= 2 callbacks "
+        "alive")
 ASSUMPTIONS = ["closure memory is mmapped, so ASan cannot see it: distinctness is decided by the "
                "address monitor, ASan only covers the backend's malloc'ed objects (infotuple, cdata)",
                "a failing ffi.callback() (NotImplementedError / TypeError) is outside the statement; "
-               "only its effect on the other callbacks and on the function's lifetime is monitored"]
+               "only its effect on the other callbacks and on the function's lifetime is monitored",
+               "'its own signature' includes the callback's own error= value and onerror handler "
+               "(they are stored next to the function in the closure's user data): a failing call "
+               "is judged by the value the C caller receives, value conversion as such is C14's",
+               "two ffi.callback() calls with the same callable and type are two callbacks "
+               "(distinct addresses, each with its own error value)",
+               "whether the destructor of an ffi.gc() copy runs at all is not judged here (counter "
+               "gc_destructor_not_run_at_drop), only what a call made from it does"]
 VARIANT = 'asan'
 
 # name, result type, parameter types
 SIGDEF = [('v', 'int', []), ('i', 'int', ['int']), ('q', 'long long', ['long long', 'int']),
           ('d', 'double', ['double', 'double']), ('p', 'void', ['int *', 'int']),
-          ('s', 'struct pt', ['short', 'unsigned char'])]
-SIGW = ['v', 'i', 'i', 'i', 'q', 'q', 'd', 'd', 'p', 's', 's']
+          ('s', 'struct pt', ['short', 'unsigned char']),
+          ('h', 'short', ['short', 'signed char']), ('m', 'int', ['int'] * 9),
+          ('u', 'void *', ['void *', 'unsigned char'])]
+SIGW = ['v', 'i', 'i', 'i', 'q', 'q', 'd', 'd', 'p', 's', 's', 'h', 'm', 'u']
 PMAX = 20000
 CLOSURE = 56          # only used for coverage counters (block starts), never for verdicts
 
@@ -104,7 +131,14 @@ def child_setup(setup, wd):
     st = {'mffi': mffi, 'lib': lib, 'pffi': pffi, 'U': mffi.typeof('uintptr_t'),
           'T': {n: mffi.typeof(fptr(r, p)) for n, r, p in SIGDEF},
           'call': {n: getattr(lib, 'call_' + n) for n, r, p in SIGDEF},
-          'out': mffi.new('int[2]'), 'log': [], 'next_id': 0, 'seen': set()}
+          'VP': mffi.typeof('void *'), 'log': [], 'onerr': [], 'ctl': [None], 'decs': {},
+          'unraisable': [], 'next_id': 0, 'seen': set(),
+          'S_ptr': {n: fptr(r, p) for n, r, p in SIGDEF},
+          'S_fn': {n: '%s(%s)' % (r, ', '.join(p) or 'void') for n, r, p in SIGDEF}}
+
+    def quiet(u, keep=st['unraisable']):
+        keep[:] = ['%s: %.150r' % (u.err_msg, u.exc_value)]
+    sys.unraisablehook = quiet
     bffi = st['bf_ffi'] = FFI()
     bffi.cdef('struct bf { int a:3; int b; };')
     st['fail_types'] = {'variadic': mffi.typeof('int(*)(int, ...)'),
@@ -112,36 +146,119 @@ def child_setup(setup, wd):
     return st
 
 
-def make_fn(sig, k, log):
+class Boom(Exception):
+    pass
+
+
+BAD = 'not a number'       # unconvertible result for every result type (void included)
+
+
+def make_fn(sig, k, st):
+    """The Python function of one callback: logs its id, then (only while a
+    failing / nested call is being monitored: ctl[0] is the history's hook) runs
+    the hook, which may call further callbacks, raise, or hand back a value that
+    cannot be converted; then returns id + echo of the arguments."""
+    log, ctl = st['log'], st['ctl']
     if sig == 'v':
         def f():
             log.append(k)
+            if ctl[0] is not None:
+                x = ctl[0](k)
+                if x is not None:
+                    return x
             return k
     elif sig == 'i':
         def f(x):
             log.append(k)
+            if ctl[0] is not None:
+                y = ctl[0](k)
+                if y is not None:
+                    return y
             return k + (x << 20)
     elif sig == 'q':
         def f(a, b):
             log.append(k)
+            if ctl[0] is not None:
+                y = ctl[0](k)
+                if y is not None:
+                    return y
             return k + (a << 20) + (b << 44)
     elif sig == 'd':
         def f(a, b):
             log.append(k)
+            if ctl[0] is not None:
+                y = ctl[0](k)
+                if y is not None:
+                    return y
             return k + a * 1048576.0 + b * 68719476736.0
     elif sig == 'p':
         def f(out, x):
             log.append(k)
+            if ctl[0] is not None:
+                y = ctl[0](k)
+                if y is not None:
+                    return y
             out[0] = k
             out[1] = x
+    elif sig == 'h':
+        def f(a, b):
+            log.append(k)
+            if ctl[0] is not None:
+                y = ctl[0](k)
+                if y is not None:
+                    return y
+            return (k + a + 3 * b) % 30000
+    elif sig == 'm':
+        def f(*a):
+            log.append(k)
+            if ctl[0] is not None:
+                y = ctl[0](k)
+                if y is not None:
+                    return y
+            return k + (sum((i + 1) * v for i, v in enumerate(a)) << 20)
+    elif sig == 'u':
+        cast, U, VP = st['mffi'].cast, st['U'], st['VP']
+
+        def f(a, b):
+            log.append(k)
+            if ctl[0] is not None:
+                y = ctl[0](k)
+                if y is not None:
+                    return y
+            return cast(VP, k + (int(cast(U, a)) << 20) + (b << 44))
     else:
         def f(a, b):
             log.append(k)
+            if ctl[0] is not None:
+                y = ctl[0](k)
+                if y is not None:
+                    return y
             return (k, a * 256 + b)
     return f
 
 
+class Holder(object):
+    """callable kinds other than a plain function: bound method, instance"""
+    def __init__(self, f):
+        self.f = f
+
+    def meth(self, *a):
+        return self.f(*a)
+
+    def __call__(self, *a):
+        return self.f(*a)
+
+
+def make_onerror(key, onlog, ret):
+    def onerror(exc, val, tb):
+        onlog.append(key)
+        return ret
+    return onerror
+
+
 def args_expect(sig, k, rnd):
+    """(arguments in model form, expected observation) of a successful call of
+    the function with id k"""
     if sig == 'v':
         return (), k
     if sig == 'i':
@@ -156,12 +273,50 @@ def args_expect(sig, k, rnd):
     if sig == 'p':
         x = rnd.randrange(-1 << 31, 1 << 31)
         return (x,), (k, x)
+    if sig == 'h':
+        a, b = rnd.randrange(-3000, 3000), rnd.randrange(-128, 128)
+        return (a, b), (k + a + 3 * b) % 30000
+    if sig == 'm':
+        a = tuple(rnd.randrange(16) for _ in range(9))
+        return a, k + (sum((i + 1) * v for i, v in enumerate(a)) << 20)
+    if sig == 'u':
+        x, b = rnd.randrange(1 << 24), rnd.randrange(256)
+        return (x, b), k + (x << 20) + (b << 44)
     a, b = rnd.randrange(-32768, 32768), rnd.randrange(256)
     return (a, b), (k, a * 256 + b)
 
 
+def err_forms(st, sig, n):
+    """an error value derived from the integer n: (what is passed as error= / returned
+    by onerror, what the caller of the failing callback must observe)"""
+    if sig in ('v', 'i', 'm'):
+        return -(n + 1), -(n + 1)
+    if sig == 'q':
+        return -(n + 1) - (1 << 40), -(n + 1) - (1 << 40)
+    if sig == 'h':
+        return -((n % 30000) + 1), -((n % 30000) + 1)
+    if sig == 'd':
+        return -(n + 0.5), -(n + 0.5)
+    if sig == 'u':
+        return st['mffi'].cast(st['VP'], (n << 4) | 1), (n << 4) | 1
+    if sig == 's':
+        return rnd_struct_form(n), (n, -7)
+    raise AssertionError(sig)
+
+
+def rnd_struct_form(n):
+    return [(n, -7), [n, -7], {'id': n, 'x': -7}][n % 3]
+
+
+ZERO = {'v': 0, 'i': 0, 'm': 0, 'q': 0, 'h': 0, 'd': 0.0, 'u': 0, 's': (0, 0), 'p': (-1, -1)}
+KINDS = ['function'] * 5 + ['method', 'partial', 'instance', 'lambda']
+HOWS = ['ctype'] * 4 + ['str-ptr', 'str-fn', 'decorator', 'decorator-str', 'shared-decorator',
+                        'shared-decorator', 'keywords']
+
+
 class Rec(object):
-    __slots__ = ('cb', 'sig', 'addr', 'wr', 'cyc', 'pos')
+    __slots__ = ('cb', 'sig', 'addr', 'wr', 'cyc', 'pos', 'key', 'fid', 'err', 'onerr', 'fexp',
+                 'wr_on', 'keep', 'twin')
 
 
 class History(object):
@@ -175,6 +330,12 @@ class History(object):
         self.created = 0
         self.last_freed = None
         self.oplog = []
+        self.fn_users = {}       # function id -> number of live callbacks around that callable
+        self.fins = {}           # key -> weakref(callback cdata, finalizer)
+        self.spawnq = []         # callbacks created inside finalizers, not yet in the model
+        self.gc_done = {}        # key -> outcome of the ffi.gc destructor's call
+        self.levels, self.cursor, self.protected = [], 0, ()
+        self.closing = False
 
     def bad(self, mech, msg):
         self.rep.bad(mech, '%s | history #%d seed %d peak %d, %d alive, last steps %r' %
@@ -182,23 +343,156 @@ class History(object):
                      self.idx)
 
     # ---- operations ----------------------------------------------------
-    def create(self):
-        import weakref
+    def _make(self, twin_of=None, simple=False):
+        """create one callback (not yet known to the model).  simple: called from a
+        finalizer at a moment the history does not control - no random draws."""
+        import weakref, functools
         st, rnd, rep = self.st, self.rnd, self.rep
-        sig = rnd.choice(SIGW)
-        k = st['next_id'] = (st['next_id'] + 1) & 0xFFFFF
-        f = make_fn(sig, k, st['log'])
         r = Rec()
-        r.sig, r.wr, r.cyc = sig, weakref.ref(f), rnd.random() < 0.125
-        if sig != 's' and rnd.random() < 0.5:
-            r.cb = st['pffi'].callback(st['T'][sig], f)
-            rep.stat('created_via_cffi.FFI')
+        k = r.key = st['next_id'] = (st['next_id'] + 1) & 0xFFFFF
+        r.cyc, r.err, r.onerr, r.wr_on, r.keep, r.twin = False, None, None, None, 'direct', False
+        fin = None
+        if twin_of is not None:          # a second callback around the same callable object
+            sig, call, r.fid, r.twin = twin_of.sig, twin_of.wr(), twin_of.fid, True
+            twin_of.twin = True
+            inner = None
+            rep.stat('created_callable_shared_with_live_callback')
         else:
-            r.cb = st['mffi'].callback(st['T'][sig], f)
-            rep.stat('created_via_module_ffi')
+            sig = SIGW[k % len(SIGW)] if simple else rnd.choice(SIGW)
+            inner = call = make_fn(sig, k, st)
+            r.fid = k
+            kind = 'function' if simple else rnd.choice(KINDS)
+            if kind == 'method':
+                call = Holder(inner).meth
+            elif kind == 'instance':
+                call = Holder(inner)
+            elif kind == 'partial':
+                call = functools.partial(inner)
+            elif kind == 'lambda':
+                call = (lambda g: lambda *a: g(*a))(inner)
+            rep.stat('created_callable_' + kind)
+            if not simple:
+                r.cyc = rnd.random() < 0.125
+                x = rnd.random()
+                fin = 'fn' if x < 0.04 else 'cdata' if x < 0.08 else None
+        r.sig = sig
+        r.wr = weakref.ref(call, self._spawn_raw) if fin == 'fn' else weakref.ref(call)
+        # ---- error= / onerror= of its own
+        kw = {}
+        if not simple:
+            if sig != 'p' and rnd.random() < 0.35:
+                kw['error'], r.err = err_forms(st, sig, k)
+            x = rnd.random()
+            if x < 0.16:
+                ret = None
+                r.onerr = 'none'
+                if sig != 'p' and x < 0.08:
+                    ret, r.err = err_forms(st, sig, k + 7777 + (1 << 20))
+                    r.onerr = 'value'
+                h = kw['onerror'] = make_onerror(k, st['onerr'], ret)
+                r.wr_on = weakref.ref(h)
+                del h
+        # ---- entry point
+        use_p = sig != 's' and (k & 1 if simple else rnd.random() < 0.5)
+        ffi = st['pffi'] if use_p else st['mffi']
+        how = 'ctype' if simple else rnd.choice(HOWS)
+        T = st['T'][sig]
+        if how == 'ctype':
+            cb = ffi.callback(T, call, **kw)
+        elif how == 'str-ptr':
+            cb = ffi.callback(st['S_ptr'][sig], call, **kw)
+        elif how == 'str-fn':
+            cb = ffi.callback(st['S_fn'][sig], call, **kw)
+        elif how == 'decorator':
+            cb = ffi.callback(T, **kw)(call)
+        elif how == 'decorator-str':
+            cb = ffi.callback(rnd.choice([st['S_ptr'], st['S_fn']])[sig], None, **kw)(call)
+        elif how == 'keywords':
+            cb = ffi.callback(cdecl=T, python_callable=call, **kw)
+        else:
+            # one decorator object per (ffi, signature, with/without error=), used again
+            # and again over the whole life of the process
+            variant = 1 if (sig != 'p' and rnd.random() < 0.5) else 0
+            dk = (use_p, sig, variant)
+            dec = st['decs'].get(dk)
+            if dec is None:
+                dkw = {'error': err_forms(st, sig, 424242)[0]} if variant else {}
+                dec = st['decs'][dk] = ffi.callback(T, **dkw)
+                rep.stat('shared_decorators_made')
+            cb = dec(call)
+            r.err, r.onerr, r.wr_on = (err_forms(st, sig, 424242)[1] if variant else None), None, None
+            kw = {}
+        rep.stat('created_how_' + how)
+        rep.stat('created_via_cffi.FFI' if use_p else 'created_via_module_ffi')
+        if 'error' in kw:
+            rep.stat('created_with_error')
+        if 'onerror' in kw:
+            rep.stat('created_with_onerror_' + r.onerr)
+        kw = None
+        r.fexp = r.err if r.err is not None else ZERO[sig]
+        if fin == 'cdata':
+            self.fins[k] = weakref.ref(cb, self._spawn_raw)
+            rep.stat('created_with_cdata_finalizer')
+        elif fin == 'fn':
+            rep.stat('created_with_function_finalizer')
         if r.cyc:
-            f.cb = r.cb
-        del f
+            (inner if inner is not None else call).cb = cb
+        elif not simple and twin_of is None and rnd.random() < 0.08:
+            # the only reference is the ffi.gc() copy; its destructor calls the callback
+            r.keep = 'gc'
+            cb = rnd.choice([st['pffi'], st['mffi']]).gc(cb, self._destructor(k, sig, r.fid))
+            rep.stat('created_kept_by_ffi.gc')
+        r.cb = cb
+        return r
+
+    def _destructor(self, key, sig, fid):
+        def destructor(cb0):
+            # runs while the callback is being dropped: it is still alive here
+            st, log, ctl = self.st, self.st['log'], self.st['ctl']
+            n, saved = len(log), ctl[0]
+            ctl[0] = None
+            try:
+                args, exp = args_expect(sig, fid, self.rnd)
+                got = self._observe(sig, cb0, (), args)
+                ran = log[n:]
+                self.gc_done[key] = None if (ran == [fid] and got == exp) else \
+                    'functions run %r, result %r, expected [%d] and %r' % (ran, got, fid, exp)
+            except Exception as e:
+                self.gc_done[key] = 'exception %r' % (e,)
+            finally:
+                del log[n:]
+                ctl[0] = saved
+        return destructor
+
+    def _spawn_raw(self, _wr):
+        """weakref callback of a callback cdata / of its function: runs in the middle
+        of cdataowninggc_dealloc (or of a cyclic collection); creates a callback right
+        there, the model learns about it at the next safe point (adopt)"""
+        if self.closing or self.rep.nbad:
+            return
+        try:
+            self.spawnq.append(self._make(simple=True))
+            self.rep.stat('created_inside_finalizer')
+        except Exception:
+            import traceback
+            self.rep.bad('harness-exception', traceback.format_exc()[-900:], self.idx)
+
+    def adopt(self):
+        while self.spawnq:
+            self._register(self.spawnq.pop(0))
+
+    def create(self):
+        self.adopt()
+        r0 = None
+        if self.ids and self.rnd.random() < 0.06:
+            r0 = self.live[self.rnd.choice(self.ids)]
+            if r0.cyc or r0.wr() is None:
+                r0 = None
+        return self._register(self._make(twin_of=r0))
+
+    def _register(self, r):
+        st, rep = self.st, self.rep
+        k, sig = r.key, r.sig
         a = r.addr = int(st['mffi'].cast(st['U'], r.cb))
         self.created += 1
         rep.stat('created_sig_' + sig)
@@ -227,6 +521,7 @@ class History(object):
         self.ids.append(k)
         self.live[k] = r
         self.order.append(k)
+        self.fn_users[r.fid] = self.fn_users.get(r.fid, 0) + 1
         return k
 
     def drop(self, mode):
@@ -241,15 +536,35 @@ class History(object):
             k = order.popleft()
         else:
             k = self.rnd.choice(self.ids)
+        self.rep.stat('dropped_' + mode)
+        self.drop_key(k)
+
+    def drop_key(self, k):
+        live = self.live
         r = live.pop(k)
         last = self.ids.pop()
         if last != k:
             self.ids[r.pos] = last
             live[last].pos = r.pos
         del self.by_addr[r.addr]
+        users = self.fn_users[r.fid] - 1
+        if users:
+            self.fn_users[r.fid] = users
+        else:
+            del self.fn_users[r.fid]
         r.cb = None                      # the only reference
-        self.rep.stat('dropped_' + mode)
-        if r.wr() is None:
+        if r.keep == 'gc':
+            res = self.gc_done.pop(k, 0)
+            if res == 0:
+                self.rep.stat('gc_destructor_not_run_at_drop')
+            else:
+                self.rep.stat('calls_from_gc_destructor')
+                if res is not None:
+                    self.bad('call-wrong:in-gc-destructor', '%s callback id %d called by the '
+                             'destructor of its ffi.gc() copy: %s' % (r.sig, k, res))
+        if users:
+            self.rep.stat('dropped_callable_still_used_by_another_callback')
+        elif r.wr() is None:
             self.rep.stat('function_freed_by_refcount')
             self.last_freed = r.addr
         elif r.cyc:
@@ -257,16 +572,26 @@ class History(object):
             self.pending.append((r.wr, 'cycle'))
         else:
             self.pending.append((r.wr, 'plain'))
+        if r.wr_on is not None and r.wr_on() is not None:
+            self.pending.append((r.wr_on, 'onerror'))
+        self.adopt()
 
     def fail(self):
         import weakref
         st, rnd = self.st, self.rnd
-        kind = rnd.choice(['variadic', 'variadic', 'bitfield-struct', 'bad-error-value'])
-        f = make_fn('i', -1, st['log'])
+        kind = rnd.choice(['variadic', 'variadic', 'bitfield-struct', 'bad-error-value',
+                           'not-callable', 'bad-onerror', 'decorator-variadic'])
+        f = make_fn('i', -1, st)
         wr = weakref.ref(f)
         try:
             if kind == 'bad-error-value':
                 st['mffi'].callback(st['T']['i'], f, error='x')
+            elif kind == 'not-callable':
+                rnd.choice([st['mffi'], st['pffi']]).callback(st['T']['i'], 42)
+            elif kind == 'bad-onerror':
+                rnd.choice([st['mffi'], st['pffi']]).callback(st['T']['i'], f, onerror=42)
+            elif kind == 'decorator-variadic':
+                rnd.choice([st['mffi'], st['pffi']]).callback(st['fail_types']['variadic'])(f)
             else:
                 ffi = st['bf_ffi'] if kind == 'bitfield-struct' else \
                     rnd.choice([st['mffi'], st['pffi']])
@@ -278,6 +603,34 @@ class History(object):
         self.rep.stat('failed_create_' + kind)
         if wr() is not None:
             self.pending.append((wr, 'failed-create'))
+
+    def noise(self):
+        """operations on a live callback object that must leave it what it is"""
+        import weakref
+        st, rnd = self.st, self.rnd
+        r = self.live[rnd.choice(self.ids)]
+        what = rnd.choice(['repr', 'release', 'with', 'weakref', 'bool-hash-eq', 'typeof'])
+        if r.keep != 'direct' and what in ('release', 'with'):
+            what = 'typeof'      # (releasing the ffi.gc() copy would legitimately drop the callback)
+        out = 'ok'
+        try:
+            if what == 'repr':
+                repr(r.cb)
+            elif what == 'release':
+                rnd.choice([st['mffi'], st['pffi']]).release(r.cb)
+            elif what == 'with':
+                with r.cb:
+                    pass
+            elif what == 'weakref':
+                weakref.ref(r.cb)
+            elif what == 'bool-hash-eq':
+                bool(r.cb), hash(r.cb), r.cb == st['mffi'].cast(st['T'][r.sig], r.addr)
+            else:
+                st['pffi'].typeof(r.cb), st['mffi'].typeof(r.cb)
+        except (ValueError, TypeError, NotImplementedError) as e:
+            out = type(e).__name__
+        self.rep.stat('noise_%s_%s' % (what, out))
+        return self.check_call(r.key)
 
     def collect(self):
         import gc
@@ -346,46 +699,171 @@ class History(object):
                          'returned %r for 10, expected 5' % (c(10),))
         del fresh[:]
 
-    def check_call(self, k, path=None):
-        st, rnd = self.st, self.rnd
-        r = self.live[k]
+    def _observe(self, sig, fn, pre, args, thread=False):
+        """call fn (cdata / C caller / cast address) with the model arguments and bring
+        the result into the comparable form of args_expect / err_forms"""
+        st = self.st
+        if sig == 'p':
+            out = st['mffi'].new('int[2]', [-1, -1])
+            cargs = pre + (out,) + args
+        elif sig == 'u':
+            cargs = pre + (st['mffi'].cast(st['VP'], args[0]), args[1])
+        else:
+            cargs = pre + args
+        got = self._in_thread(fn, cargs) if thread else fn(*cargs)
+        if sig == 'p':
+            return (out[0], out[1])
+        if sig == 's':
+            return (got.id, got.x)
+        if sig == 'u':
+            return int(st['mffi'].cast(st['U'], got))
+        return got
+
+    def _in_thread(self, fn, cargs):
+        import threading
+        box = []
+
+        def run():
+            try:
+                box.append((True, fn(*cargs)))
+            except BaseException as e:
+                box.append((False, e))
+        t = threading.Thread(target=run)
+        t.start()
+        t.join()
+        self.rep.stat('calls_from_second_python_thread')
+        if not box[0][0]:
+            raise box[0][1]
+        return box[0][1]
+
+    def invoke(self, r, path, final, thread=False):
+        """one monitored call of callback r; final: None (the function returns
+        normally), 'raise' or 'bad' (it fails: the caller must get r's own error value
+        / the value of r's own onerror handler)"""
+        st = self.st
         sig = r.sig
-        path = path or rnd.choice(['cdata', 'c', 'c', 'addr'])
-        args, exp = args_expect(sig, k, rnd)
-        log = st['log']
-        del log[:]
-        if st['mffi'].typeof(r.cb) is not st['T'][sig]:
-            self.bad('type-changed', 'callback id %d created as %s is now %s' %
-                     (k, st['T'][sig], st['mffi'].typeof(r.cb)))
+        args, exp = args_expect(sig, r.fid, self.rnd)
+        if final is not None:
+            exp = r.fexp
         if path == 'c':
             fn, pre = st['call'][sig], (r.cb,)
         elif path == 'cdata':
             fn, pre = r.cb, ()
         else:
             fn, pre = st['mffi'].cast(st['T'][sig], r.addr), ()
-        if sig == 'p':
-            out = st['out']
-            out[0] = out[1] = -1
-            fn(*(pre + (out,) + args))
-            got = (out[0], out[1])
-        else:
-            got = fn(*(pre + args))
-            if sig == 's':
-                got = (got.id, got.x)
+        got = self._observe(sig, fn, pre, args, thread)
         self.rep.stat('calls_via_' + path)
         self.rep.stat('calls_sig_' + sig)
-        if log != [k] or got != exp:
-            mech = ('call-ran-no-function:' if not log else 'call-ran-other-function:'
-                    if log != [k] else 'call-wrong-result:') + path
-            self.bad(mech, '%s callback id %d at 0x%x called via %s with %r: functions run %r, '
-                     'result %r, expected %r' % (sig, k, r.addr, path, args, log[:5], got, exp))
-        return 1
+        if final is not None:
+            self.rep.stat('calls_failing_' + final)
+            self.rep.stat('calls_failing_%s_error_%s_onerror' % (
+                'shared-decorator' if r.err == err_forms(st, 'i' if sig == 'p' else sig, 424242)[1]
+                else 'own' if r.err is not None else 'no', r.onerr or 'no'))
+        if got != exp:
+            self.bad(('call-wrong-result:' if final is None else 'call-wrong-error-result:') + path,
+                     '%s callback id %d (function id %d, error %r, onerror %s) at 0x%x called via '
+                     '%s with %r, its function %s: result %r, expected %r; last unraisable: %s' %
+                     (sig, r.key, r.fid, r.err, r.onerr, r.addr, path, args,
+                      {None: 'returns', 'raise': 'raises', 'bad': 'returns a str'}[final],
+                      got, exp, st['unraisable'][-1:]))
+
+    def hook(self, k):
+        """runs inside the Python function of a callback under a failing / nested call"""
+        i = self.cursor
+        if i >= len(self.levels):
+            return None
+        self.cursor = i + 1
+        r, path, final, mutate = self.levels[i]
+        try:
+            if mutate:
+                self.mutate()
+            if i + 1 < len(self.levels):
+                n = self.levels[i + 1]
+                self.invoke(n[0], n[1], n[2])
+        except Exception:
+            import traceback
+            self.rep.bad('harness-exception', traceback.format_exc()[-900:], self.idx)
+        if final == 'raise':
+            raise Boom(k)
+        if final == 'bad':
+            return BAD
+        return None
+
+    def mutate(self):
+        """while a callback runs: drop other callbacks, create new ones"""
+        rnd = self.rnd
+        for _ in range(rnd.choice([1, 2, 5])):
+            if len(self.ids) > len(self.protected) + 1:
+                for _try in range(8):
+                    k = rnd.choice(self.ids)
+                    if k not in self.protected:
+                        self.drop_key(k)
+                        self.rep.stat('dropped_during_a_call')
+                        break
+            self.create()
+            self.rep.stat('created_during_a_call')
+
+    def check_call(self, k, path=None):
+        st, rnd = self.st, self.rnd
+        r = self.live[k]
+        paths = ['cdata', 'c', 'c', 'addr']
+        path = path or rnd.choice(paths)
+        x = rnd.random()
+        if x < 0.90:
+            levels = [(r, path, None, False)]
+        elif x < 0.96:
+            levels = [(r, path, rnd.choice(['raise', 'raise', 'bad']), False)]
+        else:
+            levels = [(r, path, rnd.choice([None, None, 'raise', 'bad']), rnd.random() < 0.15)]
+            for _ in range(rnd.choice([1, 1, 2, 3])):
+                o = r if rnd.random() < 0.1 else self.live[rnd.choice(self.ids)]
+                levels.append((o, rnd.choice(paths), rnd.choice([None, None, 'raise', 'bad']),
+                               rnd.random() < 0.15))
+        thread = rnd.random() < 0.0007
+        log, on = st['log'], st['onerr']
+        del log[:]
+        del on[:]
+        if st['mffi'].typeof(r.cb) is not st['T'][r.sig]:
+            self.bad('type-changed', 'callback id %d created as %s is now %s' %
+                     (k, st['T'][r.sig], st['mffi'].typeof(r.cb)))
+        plain = len(levels) == 1 and levels[0][2] is None
+        if not plain:
+            self.levels, self.cursor = levels, 0
+            self.protected = set(lv[0].key for lv in levels)
+            st['ctl'][0] = self.hook
+        try:
+            self.invoke(r, path, levels[0][2], thread)
+        finally:
+            st['ctl'][0] = None
+            self.levels, self.protected = [], ()
+        exp_log = [lv[0].fid for lv in levels]
+        exp_on = [lv[0].key for lv in reversed(levels) if lv[2] is not None and lv[0].onerr]
+        if len(levels) > 1:
+            self.rep.stat('nested_call_chains')
+            self.rep.stat('nested_call_chains_depth_%d' % len(levels))
+            if any(lv[3] for lv in levels):
+                self.rep.stat('nested_call_chains_with_create_drop_inside')
+            if len(set(lv[0].key for lv in levels)) < len(levels):
+                self.rep.stat('nested_call_chains_recursive')
+        if log != exp_log:
+            mech = ('call-ran-no-function:' if not log else 'call-ran-other-function:') + path
+            self.bad(mech + (':nested' if len(levels) > 1 else ''),
+                     '%s callback id %d at 0x%x called via %s (chain of %d nested calls, finals '
+                     '%r): functions run %r, expected %r' %
+                     (r.sig, k, r.addr, path, len(levels), [lv[2] for lv in levels], log[:6],
+                      exp_log))
+        if on != exp_on:
+            self.bad('onerror-handler-not-own', '%s callback id %d at 0x%x called via %s (chain of '
+                     '%d nested calls, finals %r): onerror handlers run %r, expected %r' %
+                     (r.sig, k, r.addr, path, len(levels), [lv[2] for lv in levels], on[:6],
+                      exp_on))
+        return len(levels)
 
     def scan(self):
         """re-read every live address from the cdata; pairwise distinct"""
         cast, U = self.st['mffi'].cast, self.st['U']
         addrs = set()
-        for k, r in self.live.items():
+        for k, r in list(self.live.items()):
             a = int(cast(U, r.cb))
             if a != r.addr:
                 self.bad('address-changed', 'callback id %d moved from 0x%x to 0x%x' %
@@ -402,7 +880,8 @@ class History(object):
             self.rnd.sample(self.ids, limit)
         n = 0
         for k in list(ks):
-            n += self.check_call(k)
+            if k in self.live:           # (a create/drop inside an earlier call may have dropped it)
+                n += self.check_call(k)
         self.rep.stat('sweeps')
         return n
 
@@ -417,6 +896,7 @@ class History(object):
 
     def step(self, target):
         rnd, peak = self.rnd, self.peak
+        self.adopt()
         n = len(self.live)
         r = rnd.random()
         new, calls = [], 0
@@ -434,6 +914,10 @@ class History(object):
             op = ('fail',)
             for _ in range(rnd.choice([1, 1, 3])):
                 self.fail()
+        elif r < 0.15 and n:
+            op = ('noise',)
+            for _ in range(rnd.choice([1, 2, 4])):
+                calls += self.noise()
         elif n and (r < 0.30 or n == target):
             k = rnd.choice([1, 2, rnd.randint(1, 12), rnd.randint(1, 60)])
             mode = rnd.choice(['lifo', 'random'])
@@ -491,11 +975,19 @@ def run_history(st, rep, idx, seed, peak, budget):
             h.sweep()
             rep.stat('full_sweeps_at_peak')
     if not rep.nbad:
+        h.adopt()
         h.scan()
         h.sweep(4000)
-        while h.live and not rep.nbad:
-            h.drop(rnd.choice(['lifo', 'fifo', 'random']))
-        h.collect()
+        for _ in range(4):               # finalizers of dropped callbacks create new ones
+            while h.live and not rep.nbad:
+                h.drop(rnd.choice(['lifo', 'fifo', 'random']))
+            h.collect()
+            h.adopt()
+            if not h.live:
+                break
+    h.closing = True
+    h.fins.clear()
+    del h.spawnq[:]
     gc.enable()
 
 
